@@ -66,6 +66,11 @@ CheckOther(e) ==
    THEN {"SelectionChangesOnlyBySelectionMessages_" \o e.ev} ELSE {})
   \cup (IF \E r \in DOMAIN rep : r \in DOMAIN PostRep(e) /\ rep[r].jailed /\ ~PostRep(e)[r].jailed /\ e.ev # "UnjailReporter"
         THEN {"ReleaseOnlyByUnjail"} ELSE {})
+  \* a lock that is still running is never cut short or dropped, whatever happens to the selector's staking records meanwhile
+  \* (the switch message has its own clause)
+  \cup (IF e.ev # "SwitchReporter"
+           /\ \E s \in DOMAIN sel : s \in DOMAIN PostSel(e) /\ e.t \prec sel[s].locked /\ PostSel(e)[s].locked \prec sel[s].locked
+        THEN {"RunningLockIsNeverCutShort_" \o e.ev} ELSE {})
 
 \* ---- conformance with the constructive selection model (ReporterSM): MODEL:<step> = drift, not a verdict ----
 SV(t) == [s \in DOMAIN t |-> [rep |-> t[s].rep, locked |-> t[s].locked]]
